@@ -262,10 +262,13 @@ def _mechanism(rec, dreye, name, P, family):
     hv = O.hull_volume(P)
     scale = max(1.0, float(np.max(np.abs(P))))
     bad = None
+    if np.max(np.abs(cents - verts.mean(1))) > 1e-12 * scale:
+        # the scripted answers were not consumed in the order this decoding assumes (a legitimate implementation may
+        # reorder or batch its draws): nothing can be read off, the statistical layer decides alone
+        rec.count("mechanism-not-observable")
+        return
     if not np.allclose(log["alpha"], 1.0):
         bad = "barycentric weights are not drawn from Dirichlet(1, ..., 1)"
-    elif np.max(np.abs(cents - verts.mean(1))) > 1e-12 * scale:
-        bad = "a sample is not the barycentric image of its weights"
     elif np.min(O.hull_margin(P, verts.reshape(-1, d))) < -1e-9 * scale:
         bad = "a sampling simplex sticks out of the hull"
     elif abs(vols.sum() - hv) > 1e-9 * max(1.0, hv):
